@@ -42,6 +42,11 @@ ASSUMPTIONS = [
     "relays outside the consensus may carry the nickname of a consensus relay (nicknames are not unique); every hop "
     "of Circuit.path must have exactly the fingerprint Tor reported",
     "IPv6 literals may be kept with or without brackets",
+    "in a quarter of the cases a minimal IStreamAttacher is installed after the bootstrap (set_attacher): TorSim then "
+    "leaves new streams to the controller and executes the ATTACHSTREAM commands txtorcon sends; streams the attacher "
+    "declines stay unattached; the oracle is the same",
+    "a CIRC line without a Path is only generated where Tor sends one (LAUNCHED, FAILED of a circuit with no hop yet): "
+    "Tor prints the open hops of the circuit on every other line and hops never go away again",
     "a stream whose circuit died and that Tor has not yet reported may still reference the dead circuit object",
     "Tor may report circuit 0 for an attached, not yet connected stream on a REMAP line (a controller re-attached it: "
     "no DETACHED is sent); from then on the stream is on no circuit. A change of circuit with no line in between is "
@@ -69,6 +74,7 @@ FLOORS = {
               "circuit_died_under_streams": 200, "detached_after_circuit_died": 70,
               "reattached_to_other_circuit": 70, "hop_not_in_consensus": 700, "hop_outside_consensus_named_like_consensus_relay": 350, "cannibalized": 35,
               "closed_after_failed_delivered": 150, "stream_first_seen_in_mid_life": 150, "unattached_by_remap_0": 60,
+              "cases_with_attacher": 100, "attachstream_commands": 250, "failed_streams_with_attacher": 100,
               "reach:txtorcon.stream:Stream.update": 4200, "reach:txtorcon.circuit:Circuit.update": 4200,
               "reach:txtorcon.torstate:TorState.circuit_destroy": 700,
               "reach:txtorcon.torstate:TorState._stream_status": 350},
@@ -96,7 +102,11 @@ def gen_case(rnd, tier="quick"):
                                      max_circuits=limits[0], max_streams=limits[1])
     r = rnd.random()
     chunking = [1 << 30] if r < 0.8 else ([1] if r < 0.85 else [rnd.randint(2, 40)])
-    return {"pre": pre, "window": win, "hist": hist, "boot": "ctor" if rnd.random() < 0.6 else "from_protocol",
+    attacher = None
+    if rnd.random() < 0.25:
+        attacher = {"answer": rnd.choice(["none", "none", "do_not_attach", "first_built", "deferred_none"]),
+                    "failure_method": rnd.choice(["missing", "raising", "recording"])}
+    return {"pre": pre, "window": win, "hist": hist, "attacher": attacher, "boot": "ctor" if rnd.random() < 0.6 else "from_protocol",
             "chunking": chunking, "limits": limits}
 
 
@@ -290,6 +300,61 @@ class Reporter(object):
             self.rec.violation(clause, cls, d, self.case)
 
 
+def install_attacher(state, spec, rec):
+    """a minimal IStreamAttacher, as applications write them: attach_stream() answers None /
+    DO_NOT_ATTACH / the first BUILT circuit (directly or through a Deferred); the optional
+    attach_stream_failure() is missing (as in the project's own tests and examples), raises, or
+    records.  State tracking must not depend on any of it."""
+    from twisted.internet import defer
+    from twisted.internet.interfaces import IReactorCore
+    from zope.interface import implementer, directlyProvides
+    from txtorcon.interface import IStreamAttacher
+    from txtorcon import TorState
+
+    class Reactor(object):
+        def addSystemEventTrigger(self, *a, **kw):
+            return object()
+
+        def removeSystemEventTrigger(self, *a):
+            pass
+    reactor = Reactor()
+    directlyProvides(reactor, IReactorCore)
+    answer = spec["answer"]
+
+    @implementer(IStreamAttacher)
+    class Attacher(object):
+        asked = 0
+        failures = 0
+
+        def attach_stream(self, stream, circuits):
+            Attacher.asked += 1
+            rec.count("attacher_asked")
+            if answer == "do_not_attach":
+                return TorState.DO_NOT_ATTACH
+            if answer == "first_built":
+                for c in circuits.values():
+                    if c.state == "BUILT":
+                        return c
+                return None
+            if answer == "deferred_none":
+                return defer.succeed(None)
+            return None
+    if spec["failure_method"] == "raising":
+        def attach_stream_failure(self, stream, fail):
+            Attacher.failures += 1
+            raise RuntimeError("attacher double raises in attach_stream_failure")
+        Attacher.attach_stream_failure = attach_stream_failure
+    elif spec["failure_method"] == "recording":
+        def attach_stream_failure(self, stream, fail):
+            Attacher.failures += 1
+        Attacher.attach_stream_failure = attach_stream_failure
+    state._attacher_error = lambda fail: None        # (it prints; the project's tests patch it too)
+    d = state.set_attacher(Attacher(), reactor)
+    if d is not None:
+        d.addErrback(lambda f: None)
+    return Attacher
+
+
 def run_case(case, rec, mutate_hook=None):
     sim = torsim.TorSim(max_circuits=case["limits"][0], max_streams=case["limits"][1])
     for a in case["pre"]:
@@ -316,6 +381,15 @@ def run_case(case, rec, mutate_hook=None):
             return rep
         state = ses.state
         rep.report(compare(state, sim, rec), "snapshot", errors=ses.errors.take())
+        if case.get("attacher"):
+            install_attacher(state, case["attacher"], rec)
+            ses.pump()
+            rec.count("cases_with_attacher")
+            rec.seen("attacher_kinds", "%(answer)s/failure-method-%(failure_method)s" % case["attacher"])
+            if not sim.leave_unattached:
+                rec.violation("attacher-not-installed", case["attacher"]["answer"],
+                              {"lines": ses.tor.lines[-3:]}, case)
+            rep.report(compare(state, sim, rec), "attacher-installed", errors=ses.errors.take())
         delivered = 0
         compared_live = False
         last = {}
@@ -349,6 +423,10 @@ def run_case(case, rec, mutate_hook=None):
         for k in SIM_STATS:
             if sim.stats.get(k):
                 rec.count(k, sim.stats[k])
+        if case.get("attacher"):
+            rec.count("attachstream_commands", sum(1 for w in sim.commands if w[0] == "ATTACHSTREAM"))
+            rec.count("failed_streams_with_attacher", sum(
+                1 for x in getattr(sim, "dead_streams", {}).values() if getattr(x, "final_status", "") == "FAILED"))
         rec.case(case, nontrivial=bool(delivered and compared_live))
     finally:
         ses.close()
